@@ -19,14 +19,15 @@ func init() {
 			"bitmaps of 4..64 words with range ends drawn from {word boundaries +-1, positions of 1-bits +-1, random}. Non-trivial+distinct = hash of (bitmap) for all-range batches with at least one 0 and one 1, " +
 			"hash of (bitmap, i, end) for sampled ranges.",
 		Assumptions: []string{"domain as stated: i inside the bitmap, i <= end <= 64*len, end >= 1 for PrevOne"},
-		Flavours:    releaseThenGo126,
+		Flavours:    releaseAnd386,
 		Required: []string{"next/in-first-word", "next/after-skipped-zero-words", "next/next-word", "next/none", "next/found-but-beyond-end", "range/empty", "range/i-aligned", "range/end-aligned",
-			"prev/in-last-word", "prev/after-skipped-zero-words", "prev/prev-word", "prev/none", "prev/found-but-before-i", "bitmap>=500-words", "bitmap>=65536-words"},
+			"prev/in-last-word", "prev/after-skipped-zero-words", "prev/prev-word", "prev/none", "prev/found-but-before-i", "bitmap>=500-words", "bitmap>=65536-words", "bitmap=2^31-64-bits"},
 		Families: func(c *mon.Config) []mon.Family {
 			return []mon.Family{
 				{Name: "all-ranges-structured", N: 3 * 4 * 4 * 3, Run: c13Structured},
 				{Name: "all-ranges-zoo", N: c.Pick(1500, 300000), Run: c13AllZoo},
 				{Name: "sampled-long", N: c.Pick(20000, 4000000), Run: c13Long},
+				{Name: "huge-bitmap", N: 1, Run: c13Huge},
 			}
 		},
 	})
@@ -281,4 +282,62 @@ func c13Long(w *mon.W, idx int) {
 		w.Fail("NextPrev/input-modified", mon.D{"words": truncW(orig, 6)})
 	}
 	w.Sample(func() interface{} { return mon.D{"nwords": nw, "sampled_ranges": 60} })
+}
+
+// c13Huge: a bitmap of 2^25-1 words (2^31-64 bits, the largest whose positions fit an int32) with a
+// few ones at its head, around 2^30 and in its last words; ranges near the top of the int32 domain.
+// The pages in between are never touched.
+func c13Huge(w *mon.W, _ int) {
+	nw := 1<<25 - 1
+	n := 64 * nw
+	bm := make([]uint64, nw)
+	ones := []int{3, 1 << 20, 1<<30 + 5, n - 700, n - 65, n - 1}
+	for _, p := range ones {
+		setBit(bm, p)
+	}
+	next := func(i, end int) int32 {
+		for _, p := range ones {
+			if p >= i && p < end {
+				return int32(p)
+			}
+		}
+		return -1
+	}
+	prev := func(i, end int) int32 {
+		for k := len(ones) - 1; k >= 0; k-- {
+			if ones[k] >= i && ones[k] < end {
+				return int32(ones[k])
+			}
+		}
+		return -1
+	}
+	type q struct{ i, end int }
+	var qs []q
+	for _, e := range []int{n, n - 1, n - 2, n - 63, n - 64, n - 65, n - 200, n - 256, n - 257, n - 699, n - 701} {
+		for _, d := range []int{0, 1, 10, 63, 64, 65, 200, 255, 256, 257, 300, 600, 1000, 5000} {
+			if e-d >= 0 && e-d < n { // i must lie inside the bitmap (stated domain)
+				qs = append(qs, q{e - d, e})
+			}
+		}
+	}
+	qs = append(qs, q{0, 4}, q{0, 3}, q{4, 1 << 20}, q{4, 1<<20 + 1}, q{1<<30 - 300, 1<<30 + 300}, q{1<<30 + 6, 1<<30 + 70000})
+	for _, x := range qs {
+		w.Op, w.A, w.B = "NextOne(huge)", int64(x.i), int64(x.end)
+		if g, e := bitmap.NextOne(bm, int32(x.i), int32(x.end)), next(x.i, x.end); g != e {
+			w.Fail("NextOne/huge-bitmap", mon.D{"nwords": nw, "i": x.i, "end": x.end, "got": g, "expected": e})
+			return
+		}
+		if x.end >= 1 {
+			w.Op = "PrevOne(huge)"
+			if g, e := bitmap.PrevOne(bm, int32(x.i), int32(x.end)), prev(x.i, x.end); g != e {
+				w.Fail("PrevOne/huge-bitmap", mon.D{"nwords": nw, "i": x.i, "end": x.end, "got": g, "expected": e})
+				return
+			}
+		}
+		w.Tick()
+	}
+	w.Eval(int64(2 * len(qs)))
+	w.Bucket("bitmap=2^31-64-bits")
+	w.Distinct(gen.Hash64(0x4096, uint64(len(qs))))
+	w.Sample(func() interface{} { return mon.D{"nwords": nw, "ones_at": ones, "ranges": len(qs)} })
 }
